@@ -212,7 +212,9 @@ theorem C19_plain_partial (self : Val) (f : Func Val) (c : PCall Val)
         (diff (names f.pos) (keys (defaultsOf f.pos))).all
          (fun n => (keys c.kwds).contains n || (keys ((names f.pos).zip c.args)).contains n) := by
       simp only [vchecks, hnamed]
-    simp only [validate, hsig, VChecks.all, Bool.and_eq_true, e1, e2, e5, e6, true_and, and_true]
+    have e9 : (vchecks f c ((names f.pos).map (fun n => (n, false))) (defaultsOf f.pos) []).boundSelf = true := by
+      simp [vchecks, h3]
+    simp only [validate, hsig, VChecks.all, Bool.and_eq_true, e1, e2, e5, e6, e9, true_and, and_true]
     rw [e3, e4, e7, e8]
     constructor
     · rintro ⟨⟨⟨a, b⟩, c'⟩, d⟩; exact ⟨a, b, c', d⟩
